@@ -840,6 +840,9 @@ def rule_sync_inputs(ctx, rule='R09.13'):
 
 
 def run(ctx):
+    from . import protocol
+    protocol.rule_corrector_typestate(ctx, 'R01.14')     # the corrector is undone exactly by its inverse
+    protocol.rule_integrator_conjuncts(ctx, 'R07.13')
     from . import c08 as _c08
     _c08.rule_exit_machine(ctx)     # R08.2/R08.3: the state is synchronised before the last step is shortened
     from . import serial as _serial
